@@ -113,7 +113,7 @@ def ob_a(ob):
     ob.bound("evaluation cap in {1,2,3}; 1 molecule x 1 atom and the padded batch [[H,H],[H,pad]]; forces and energies of every evaluation, tolerance>0 and step factor>0 symbolic reals; log in {True, False}; every path of the run loop explored")
     ob.assume("electronic-structure driver stubbed by fresh symbols per evaluation (padding rows get zero force: C01.f)")
     for species in ([[1]], [[1, 1], [1, 0]]):
-        for max_evl in (1, 2, 3):
+        for max_evl in ((1, 2, 3) if ob.tier == "quick" else (1, 2, 3, 4, 5)):
             for log in (True, False):
                 res, ex, assm, (tol, alpha, x0) = _run(max_evl, log, species)
                 ob.paths += ex.paths
